@@ -756,21 +756,28 @@ Definition work_effect (q : lreq) (ok : bool) (n : nat) (h : heap) : lreq * heap
   | _ => (set_ptr q (q_ptr q) res (q_bufs q), h)
   end.
 
-(* ring route: uv__iou_fs_statx allocates the statx buffer; uv__poll_io_uring
-   + uv__iou_fs_statx_post release it; reads/writes keep their buffer copy.
-   [unsupported] = the completion carried -EOPNOTSUPP and the request was
-   re-posted to the pool (uv__fs_post). *)
-Definition ring_effect (q : lreq) (ok unsupported : bool) (n : nat) (h : heap) : lreq * heap :=
+(* ring route.  Submission (uv__iou_fs_statx allocates the struct statx and
+   parks it in req->ptr; the other uv__iou_fs_* allocate nothing), then the
+   completion in uv__poll_io_uring (+ uv__iou_fs_statx_post); reads/writes keep
+   their buffer copy.  [unsupported] = the completion carried -EOPNOTSUPP and the
+   request was re-posted to the pool (uv__fs_post). *)
+Definition ring_submit (q : lreq) (h : heap) : lreq * heap :=
   match q_kind q with
-  | KStat | KFstat =>
-      let h1 := alloc BkStatx h in
-      let q1 := set_ptr q QStatx 0%Z (q_bufs q) in
-      if unsupported then work_effect q1 ok n h1
-      else (set_ptr q1 (if ok then QStatbuf else QNull) (if ok then 0 else -2)%Z (q_bufs q), release BkStatx h1)
-  | _ =>
-      if unsupported then work_effect q ok n h
-      else (set_ptr q (q_ptr q) (if ok then Z.of_nat n else -2)%Z (q_bufs q), h)
+  | KStat | KFstat => (set_ptr q QStatx 0%Z (q_bufs q), alloc BkStatx h)
+  | _ => (q, h)
   end.
+
+Definition ring_finish (q : lreq) (ok unsupported : bool) (n : nat) (h : heap) : lreq * heap :=
+  if unsupported then work_effect q ok n h
+  else
+    match q_kind q with
+    | KStat | KFstat =>
+        (set_ptr q (if ok then QStatbuf else QNull) (if ok then 0 else -2)%Z (q_bufs q), release BkStatx h)
+    | _ => (set_ptr q (q_ptr q) (if ok then Z.of_nat n else -2)%Z (q_bufs q), h)
+    end.
+
+Definition ring_effect (q : lreq) (ok unsupported : bool) (n : nat) (h : heap) : lreq * heap :=
+  let '(q1, h1) := ring_submit q h in ring_finish q1 ok unsupported n h1.
 
 (* uv_fs_scandir_next (uv-common.c:733-768): one step of the iteration *)
 Definition scandir_next (q : lreq) (h : heap) : lreq * heap :=
@@ -860,3 +867,9 @@ Definition reach (k : fskind) (cb big : bool) (stt : lstate) (h : heap) : lreq *
    successful opendir (released by closedir), the dirent names of a readdir
    are released by the request's cleanup. *)
 Definition user_owned (b : block) : bool := match b with BkDir => true | _ => false end.
+
+(* Blocks obtained through uv__malloc (visible to uv_replace_allocator); the
+   scandir entries come from the C library's scandir(). *)
+Definition uv_block (b : block) : bool :=
+  match b with BkDents | BkDent _ => false | _ => true end.
+Definition uv_live (h : heap) : nat := length (filter uv_block (live h)).
